@@ -334,8 +334,9 @@ Definition variants_layout (cf : cfg) (defname : string) (st : bstate)
            (vs : list (string * list (string * list Q))) : vres :=
   let '(ws, ok) := variants_loop defname st vs in
   if ok then {| v_count := length vs; v_written := ws; v_raised := false |}
-  else if fix_variants cf then {| v_count := 0; v_written := []; v_raised := true |}
-       else {| v_count := length vs; v_written := ws; v_raised := false |}.
+  else if fix_variants cf
+       then {| v_count := length ws; v_written := ws; v_raised := false |}   (* repaired: validate first, count what is written *)
+       else {| v_count := length vs; v_written := ws; v_raised := false |}.  (* snapshot: count written before the early return *)
 
 (* ---------------------------------------------------------------- boolean equalities
    (used by the correspondence to compare with the implementation's output) *)
